@@ -151,6 +151,7 @@ def run_jobs(modname, jobs, procs=None, deadline=None, job_cap_s=None):
     from multiprocessing.connection import wait
     procs = procs or min(16, os.cpu_count() or 1)
     ctx = mp.get_context("fork")
+    jobs = [dict(j, _stop_depth=j['split_depth']) if j.get('split_depth') else j for j in jobs]
     pending = sorted(jobs, key=lambda j: j.get('weight', 0))      # heaviest first (popped from the end)
     active = {}
     out = []
@@ -173,6 +174,17 @@ def run_jobs(modname, jobs, procs=None, deadline=None, job_cap_s=None):
             r.close()
             p.join(5)
             out.append(res)
+            # prefix splitting: a job run with _stop_depth returns the decision prefixes of its frontier; each becomes a
+            # sub-job exploring only that sub-tree
+            fr = res.get('frontier') if isinstance(res, dict) else None
+            if fr and job.get('_stop_depth') is not None:
+                for pre in fr:
+                    sub = dict(job)
+                    sub['_prefix'] = list(pre)
+                    sub['_stop_depth'] = None
+                    sub.pop('split_depth', None)
+                    pending.append(sub)
+                res['frontier'] = len(fr)
         now = time.time()
         for r, (p, job, t0) in list(active.items()):
             cap = job.get('cap_s') or job_cap_s
@@ -247,3 +259,9 @@ def repo_sources(files):
 
 def log(*a):
     print(*a, file=sys.stderr, flush=True)
+
+
+def split_args(job):
+    """explore() keyword arguments implementing prefix splitting for a job"""
+    pre = list(job.get('_prefix') or [])
+    return dict(prefix=pre, fixed=len(pre), stop_depth=job.get('_stop_depth'))
